@@ -52,7 +52,7 @@ type memLog struct {
 var notConnectedLogged bool
 
 func (m *memLog) add(s string) {
-	if !notConnectedLogged && strings.Contains(s, "because kafka: broker not connected") {
+	if !notConnectedLogged && (strings.Contains(s, "because kafka: broker not connected") || strings.Contains(s, "while fetching metadata: kafka: broker not connected")) {
 		notConnectedLogged = true
 	}
 	if m.on {
